@@ -18,7 +18,7 @@ theorem fmt_flat : FmtIs FT_FLAT 8 18 24 26 55 := by unfold FmtIs; decide
 theorem enc_vop2_sdwa (c : Bool) (d : Desc) (row : Row) (f : Format)
     (hft : d.ft = FT_VOP2) (hf : f.ft = FT_VOP2) (hsz : f.size = 4)
     (hro : row.opcode = d.op) (hop : d.op < 64) (hs : d.sdwa = 1)
-    (hfo : fieldsOK d = true) (hdev : deviates d = false) :
+    (hfo : fieldsOK d = true) :
     encWord d < 2 ^ 32 ∧ encWord d / 2 ^ 31 = 0 ∧ extractBits (encWord d) 25 30 = d.op ∧
     ∀ w1?, (∀ l, encSecond d = some l → w1? = some l) →
       decodeRow c f row (encWord d) w1? = .ok (instOfRow d row) := by
@@ -26,9 +26,6 @@ theorem enc_vop2_sdwa (c : Bool) (d : Desc) (row : Row) (f : Format)
     simp [encWord, hft, hs, FT_SOP2, FT_SOPK, FT_SOP1, FT_SOPC, FT_SOPP, FT_SMEM, FT_VOP2, FT_VOP1, FT_VOPC, FT_VOP3a, FT_VOP3b, FT_FLAT, FT_DS]
   simp [fieldsOK, hft, hs, FT_SOP2, FT_SOPK, FT_SOP1, FT_SOPC, FT_SOPP, FT_SMEM, FT_VOP2, FT_VOP1, FT_VOPC, FT_VOP3a, FT_VOP3b, FT_FLAT, FT_DS] at hfo
   obtain ⟨⟨⟨⟨⟨⟨⟨⟨⟨b0, b1⟩, bd⟩, bs0⟩, bs1⟩, bds⟩, bdu⟩, b0s⟩, b1s⟩, hk⟩ := hfo
-  have hs0 : d.s0 = 0 := by
-    simp [deviates, hft, hs, FT_SOP2, FT_SOPK, FT_SOP1, FT_SOPC, FT_SOPP, FT_SMEM, FT_VOP2, FT_VOP1, FT_VOPC, FT_VOP3a, FT_VOP3b, FT_FLAT, FT_DS] at hdev
-    omega
   have x0 : extractBits (encWord d) 0 8 = 249 := by rw [hW]; unfold extractBits; omega
   have x1 : extractBits (encWord d) 9 16 = d.vsrc1 := by rw [hW]; unfold extractBits; omega
   have xd : extractBits (encWord d) 17 24 = d.vdst := by rw [hW]; unfold extractBits; omega
@@ -51,7 +48,7 @@ theorem enc_vop2_sdwa (c : Bool) (d : Desc) (row : Row) (f : Format)
   have y9 : extractBits (sdwaWord d) 27 27 = 0 := by unfold sdwaWord extractBits; omega
   have y10 : extractBits (sdwaWord d) 28 28 = 0 := by unfold sdwaWord extractBits; omega
   have y11 : extractBits (sdwaWord d) 29 29 = 0 := by unfold sdwaWord extractBits; omega
-  have y12 : extractBits (sdwaWord d) 30 30 = 0 := by unfold sdwaWord extractBits; omega
+  have y12 : extractBits (sdwaWord d) 23 23 = d.s0 := by unfold sdwaWord extractBits; omega
   have y13 : extractBits (sdwaWord d) 31 31 = d.s1 := by unfold sdwaWord extractBits; omega
   generalize sdwaWord d = sw at y0 y1 y2 y3 y4 y5 y6 y7 y8 y9 y10 y11 y12 y13 hsec
   have hdu : (d.dstUnused == 3) = false := by
@@ -67,7 +64,7 @@ theorem enc_vop2_sdwa (c : Bool) (d : Desc) (row : Row) (f : Format)
   simp only [y0, y1, y2, y3, y4, y5, y6, y7, y8, y9, y10, y11, y12, y13, Nat.reduceBEq, Bool.false_eq_true, if_false, hdu, hk', hro, bne_self_eq_false]
   simp only [Outcome.setSize]
   unfold instOfRow
-  simp only [hft, hs, hs0, hsec, FT_SOP2, FT_SOPK, FT_SOP1, FT_SOPC, FT_SOPP, FT_SMEM, FT_VOP2, FT_VOP1, FT_VOPC, FT_VOP3a, FT_VOP3b, FT_FLAT, FT_DS,
+  simp only [hft, hs, hsec, FT_SOP2, FT_SOPK, FT_SOP1, FT_SOPC, FT_SOPP, FT_SMEM, FT_VOP2, FT_VOP1, FT_VOPC, FT_VOP3a, FT_VOP3b, FT_FLAT, FT_DS,
     Nat.reduceBEq, Bool.false_eq_true, if_false, BEq.rfl, if_true, Option.isSome_some, bne_self_eq_false]
 
 /-! ## DS -/
